@@ -16,6 +16,9 @@ parsers' column tables are regenerated from the source on every run (`Generated/
   token per column when every value leaves a blank in its cell.
 * `blocks_balanced`, `estimate_keys_distinct`, `data_types_modelled`, `tms_columns_have_types`.
 
+* `fmtFixed_fits`, `coordinate_fits` — how wide a number prints; the property's coordinate domain
+  (±9 999 999.9999) fits the coordinate cells (`14.4f` with a blank to spare, `14.5f`, `16.5f`).
+
 Not proved (measured by the correspondence on every run): that the decimal text of a number parses
 back to within half a unit of the last printed digit (`float(fmtFixed q w p)`), NumPy's
 `genfromtxt`/`savetxt`, pandas' `read_csv`.
@@ -48,6 +51,31 @@ theorem wider_field_reads_cell (line : Str) (a s e b : Nat) (h1 : a ≤ s) (h2 :
     (hl : isBlank (Text.slice a s line) = true) (hr : isBlank (Text.slice e b line) = true) :
     strip (Text.slice a b line) = strip (Text.slice s e line) :=
   Midgard.Writers.strip_slice_wider line a s e b h1 h2 h3 hl hr
+
+/-- **How wide a number prints** (`fmtFixed_width`).  If `|q|·10^p ≤ 10^(k+p) − 1`, then
+`'{:.pf}'.format(q)` has at most `k` integer digits: sign + `k` + point + `p` characters. -/
+theorem fmtFixed_fits (q : Rat) (p k : Nat) (hp : 0 < p) (hk : 0 < k)
+    (h : (if q < 0 then -q else q) * Decimal.pow10 p ≤ ((10 ^ (k + p) - 1 : Nat) : Rat)) :
+    (Decimal.fmtFixedCore q p).length ≤ (if q < 0 then 1 else 0) + k + 1 + p :=
+  Decimal.fmtFixedCore_fits q p k hp hk h
+
+/-- **The property's coordinate domain fits.**  Every coordinate with `|x| ≤ 9 999 999.9999` fits
+the `14.4f` cells of SINEX TMS (X, Y, Z) *with a blank to spare* (so adjacent cells stay separated),
+and the `14.5f` / `16.5f` cells of the Bernese CRD/VEL lines. -/
+theorem coordinate_fits (q : Rat) (hlo : -(99999999999 / 10000 : Rat) ≤ q) (hhi : q ≤ 99999999999 / 10000) :
+    fitsCellStrict ⟨none, 14, some 4, .fix⟩ (.num q) = true ∧
+    fitsCell ⟨none, 14, some 5, .fix⟩ (.num q) = true ∧
+    fitsCell ⟨none, 16, some 5, .fix⟩ (.num q) = true :=
+  Decimal.coordinate_fits q hlo hhi
+
+/-- the specs named in `coordinate_fits` are the ones the source has now -/
+theorem coordinate_cells_are_those :
+    specOf "X" = some ⟨none, 14, some 4, .fix⟩ ∧ specOf "Y" = some ⟨none, 14, some 4, .fix⟩ ∧
+    specOf "Z" = some ⟨none, 14, some 4, .fix⟩ ∧
+    specOfCell (rowOf "bernese_crd") "x" = some ⟨none, 16, some 5, .fix⟩ ∧
+    specOfCell (rowOf "bernese_crd") "y" = some ⟨none, 14, some 5, .fix⟩ ∧
+    specOfCell (rowOf "bernese_crd") "z" = some ⟨none, 14, some 5, .fix⟩ := by
+  decide +kernel
 
 /-! ### Alignment of writer cells and parser columns (regenerated tables) -/
 
@@ -159,6 +187,9 @@ end Midgard.Props.C17
 #print axioms Midgard.Props.C17.fields_in_columns
 #print axioms Midgard.Props.C17.readback_nominal
 #print axioms Midgard.Props.C17.wider_field_reads_cell
+#print axioms Midgard.Props.C17.fmtFixed_fits
+#print axioms Midgard.Props.C17.coordinate_fits
+#print axioms Midgard.Props.C17.coordinate_cells_are_those
 #print axioms Midgard.Props.C17.crd_writer_parser_aligned
 #print axioms Midgard.Props.C17.clu_writer_parser_aligned
 #print axioms Midgard.Props.C17.tms_ref_coordinate_aligned
